@@ -30,7 +30,45 @@ def _bounded_quick():
     from checks import runner_native
     b1, n1 = runner_native.search(0, 5)
     b2, n2 = runner_native.thermalisation_cases(0)
-    return b1 + b2, n1 + n2
+    b3, n3 = loaded_times_cases()
+    return b1 + b2 + b3, n1 + n2 + n3
+
+
+def loaded_times_cases():
+    """real solves with save_every != 100 and skip_time, read back with Solution.from_hdf5: the times of the loaded solution are the frame times and
+    the per-step records are one per step"""
+    import logging
+    import os
+    import tempfile
+    import numpy as np
+    logging.disable(logging.CRITICAL)
+    import h5py
+    import tdgl
+    from checks import update_native
+    dev = update_native.device()
+    bad, n = [], 0
+    with tempfile.TemporaryDirectory() as td:
+        for k, adaptive, skip in ((7, True, 0.0), (3, False, 0.2), (1, True, 0.0)):
+            o = tdgl.SolverOptions(solve_time=0.5, skip_time=skip, save_every=k, adaptive=adaptive, dt_init=1e-2, output_file=os.path.join(td, f"t{n}.h5"))
+            sol = tdgl.solve(dev, o, applied_vector_potential=0.2)
+            back = tdgl.Solution.from_hdf5(sol.path)
+            with h5py.File(sol.path, "r") as f:
+                keys = sorted(f["data"], key=int)
+                ftimes = np.array([float(f["data"][q].attrs["time"]) for q in keys])
+                fsteps = np.array([int(f["data"][q].attrs["step"]) for q in keys])
+            n += 1
+            case = dict(save_every=k, adaptive=adaptive, skip_time=skip, frames=len(keys))
+            for nm_, s_ in (("returned", sol), ("loaded", back)):
+                t_ = np.asarray(s_.times)
+                if len(t_) != len(ftimes) or not np.allclose(t_, ftimes, rtol=1e-12, atol=1e-15):
+                    bad.append(dict(case, what=f"times of the {nm_} solution are not the frame times", n_times=len(t_), last_time=float(t_[-1]) if len(t_) else None,
+                                    last_frame_time=float(ftimes[-1])))
+                    break
+                if s_.dynamics is not None and len(s_.dynamics.dt) != fsteps[-1]:
+                    bad.append(dict(case, what=f"per-step records of the {nm_} solution: {len(s_.dynamics.dt)} for {fsteps[-1]} steps"))
+                    break
+    logging.disable(logging.NOTSET)
+    return bad, n
 
 
 def units():
